@@ -146,16 +146,20 @@ pub fn emit_case(cx: &mut Ctx, run: &Run, seed_ok: bool, points: &[(usize, Mode,
     let tr = &tr;
     let steps: Vec<AStep> = tr.iter().map(|x| x.0.clone()).collect();
     let verdict = monitor(&steps);
+    let nt = node_table_trace(run);
+    let nt_ok = node_table_ok(&nt);
     let pts = vh::coq_list(points, |(k, m, ids)| {
         format!("({}%nat, {}, {})", k, if *m == Mode::Pd { "PD" } else { "PL" }, coq_ids(ids))
     });
     cx.cw.push(format!(
-        "{{| c_rtrace := [{}]; c_trace := {}; c_seeded := {}; c_monitor_ok := {}; c_points := {} |}}",
+        "{{| c_rtrace := [{}]; c_trace := {}; c_seeded := {}; c_monitor_ok := {}; c_points := {}; c_ntrace := [{}]; c_ntab_ok := {} |}}",
         rt.join("; "),
         vh::coq_list(&steps, |s| s.coq()),
         vh::coq_bool(seed_ok),
         vh::coq_bool(verdict.is_none()),
-        pts
+        pts,
+        nt.iter().map(|x| x.0.clone()).collect::<Vec<_>>().join("; "),
+        vh::coq_bool(nt_ok)
     ));
     cx.st.corr_cases += 1;
 }
@@ -240,6 +244,11 @@ pub fn explore_crashes(
                 json!({"history": hist.iter().map(op_json).collect::<Vec<_>>(), "abstract_trace": steps.iter().map(|s| s.coq()).collect::<Vec<_>>()}),
             );
         }
+    }
+    if !node_table_ok(&node_table_trace(&run)) {
+        cx.st.fails += 1;
+        cx.rep.fail(idx, None, "node-table writes violate the record-before-header protocol (header length ahead of the records, or a non-dense record)",
+            json!({"history": hist.iter().map(op_json).collect::<Vec<_>>(), "node_table_trace": node_table_trace(&run).iter().map(|x| x.0.clone()).collect::<Vec<_>>()}));
     }
     let pts = crash_points(&run, from_op, r, max_points);
     let mut corr_points = vec![];
